@@ -188,6 +188,28 @@ Definition exported (P : project) (X : path) (n : name) : bool :=
   | None => false
   end.
 
+(* the last statement of a body that binds n decides; a star import binds n only if the module exports it *)
+Section Scan.
+  Variable n : name.
+  Variable star_val : nat -> path -> option value.
+  Variable ev_binder : binder -> option value.
+  Variable dflt : option value.
+  Fixpoint scan_body (l : list stmt) : option value :=
+    match l with
+    | [] => dflt
+    | SStar level modname :: l' =>
+      match star_val level modname with
+      | Some v => Some v
+      | None => scan_body l'
+      end
+    | s :: l' =>
+      match stmt_binder s n with
+      | Some b => ev_binder b
+      | None => scan_body l'
+      end
+    end.
+End Scan.
+
 Section Eval.
   Variable P : project.
 
@@ -213,27 +235,18 @@ Section Eval.
               end
             | BAlias expr => ev f (REval m qual expr)
             end in
-          (fix scan (l : list stmt) : option value :=
-             match l with
-             | [] => match qual with
-                     | [] => if m_pkg mm && is_module P (m ++ [n]) then Some (VMod (m ++ [n])) else None
-                     | _ => None
-                     end
-             | SStar level modname :: l' =>
+          scan_body n
+            (fun level modname =>
                match resolve_relative m (m_pkg mm) level modname with
-               | Some X => if is_module P X && exported P X n
-                           then match ev f (RNs X [] n) with
-                                | Some v => Some v
-                                | None => scan l'
-                                end
-                           else scan l'
-               | None => scan l'
-               end
-             | s :: l' => match stmt_binder s n with
-                          | Some b => ev_binder b
-                          | None => scan l'
-                          end
-             end) (rev body)
+               | Some X => if is_module P X && exported P X n then ev f (RNs X [] n) else None
+               | None => None
+               end)
+            ev_binder
+            (match qual with
+             | [] => if m_pkg mm && is_module P (m ++ [n]) then Some (VMod (m ++ [n])) else None
+             | _ => None
+             end)
+            (rev body)
         | _, _ => None
         end
       | RAttr v n =>
